@@ -81,7 +81,12 @@ pub fn run(ctx: &Ctx) -> i32 {
             let mut c = make_case(&mut rng, &prof, inject, Some(&Style::plain()));
             if k % 4 == 1 {
                 // CSR-heavy trap handlers and shared tails instead of a generated program
-                let s = if rng.chance(0.7) { crate::shapes::trap_handler_family(&mut rng) } else { crate::shapes::shared_tail_family(&mut rng) };
+                let s = match rng.below(10) {
+                    0..=4 => crate::shapes::trap_handler_family(&mut rng),
+                    5 | 6 => crate::shapes::shared_tail_family(&mut rng),
+                    7 => crate::shapes::slot_loop_family(&mut rng),
+                    _ => crate::shapes::exit_ecall_family(&mut rng),
+                };
                 c.g.prog = s.prog;
                 c.g.funcs.clear();
                 c.printed = crate::print::print(&c.g.prog, &Style::plain(), &mut Rng::new(1));
